@@ -217,6 +217,9 @@ def ROUNDUP(number, digits):
     if utils.any_is_error((number, digits)):
         return error.VALUE
     sign = 1 if number > 0 else -1
+    if digits < 0:
+        # 10**digits is an inexact float for negative digits: scale with the exact integer power instead
+        return sign * math.ceil(abs(number) / 10**-digits) * 10**-digits
     return sign * (math.ceil(abs(number) * 10**digits)) / 10**digits
 
 
@@ -227,6 +230,8 @@ def ROUNDDOWN(number, digits):
     if utils.any_is_error((number, digits)):
         return error.VALUE
     sign = 1 if number > 0 else -1
+    if digits < 0:
+        return sign * math.floor(abs(number) / 10**-digits) * 10**-digits
     return sign * (math.floor(abs(number) * 10**digits)) / 10**digits
 
 
